@@ -2727,11 +2727,10 @@ class Scene:
         # Store the current state
         v_orig, w_orig, p_orig, q_orig = airplane_object.get_state()
         phi, theta_orig, psi = quat_to_euler(q_orig)
-        v_wind = self._get_wind(airplane_object.p_bar)
         controls_original = copy.copy(airplane_object.current_control_state)
 
         # In case we're already trimmed, parse the original state as the solution
-        v = quat_trans(q_orig, v_orig-v_wind)
+        v = quat_trans(q_orig, v_orig)
         curr_state = {
             "position" : list(p_orig),
             "velocity" : list(v),
@@ -2804,7 +2803,7 @@ class Scene:
             # Perturb forward
             E_fwd = [phi, theta0+dtheta, psi]
             q_fwd = euler_to_quat(E_fwd)
-            v_fwd = quat_trans(q_fwd, v_orig-v_wind)
+            v_fwd = quat_trans(q_fwd, v_orig)
             fwd_state = {
                 "position" : p_orig,
                 "velocity" : v_fwd,
@@ -2818,7 +2817,7 @@ class Scene:
             # Perturb backward
             E_bwd = [phi, theta0-dtheta, psi]
             q_bwd = euler_to_quat(E_bwd)
-            v_bwd = quat_trans(q_bwd, v_orig-v_wind)
+            v_bwd = quat_trans(q_bwd, v_orig)
             bwd_state = {
                 "position" : p_orig,
                 "velocity" : v_bwd,
@@ -2850,7 +2849,7 @@ class Scene:
             # Update state
             E = [phi, theta0, psi]
             q = euler_to_quat(E)
-            v = quat_trans(q, v_orig-v_wind)
+            v = quat_trans(q, v_orig)
             curr_state = {
                 "position" : list(p_orig),
                 "velocity" : list(v),
@@ -2880,7 +2879,7 @@ class Scene:
         if not set_trim_state:
             orig_state = {
                 "position" : p_orig,
-                "velocity" : quat_trans(q_orig, v_orig-v_wind),
+                "velocity" : quat_trans(q_orig, v_orig),
                 "orientation" : q_orig,
                 "angular_rates" : w_orig
             }
